@@ -632,6 +632,66 @@ fn native_spec() {
                 Err(e) => println!("SPEC-REPLAY MISMATCH target=positional_counter case={argv:?}: rejected as {:?}", e.kind()),
             }
         }
+    } else if target == "push_arg_values" || target == "react_index" {
+        // C02: one index per reported value, strictly increasing in argv order; raw values are the argv substrings
+        let cmd = Command::new("p")
+            .arg(Arg::new("o").long("o").num_args(1..).action(ArgAction::Append))
+            .arg(Arg::new("f").short('f').action(ArgAction::SetTrue))
+            .arg(Arg::new("n").long("n").value_parser(crate::value_parser!(u8)).action(ArgAction::Append))
+            .arg(Arg::new("pos").index(1).action(ArgAction::Append).num_args(1..));
+        match cmd.clone().try_get_matches_from(["p", "--o", "a", "b", "-f", "x", "--o=c", "--n", "7", "y"]) {
+            Ok(m) => {
+                let idx = |id: &str| -> Vec<usize> { m.indices_of(id).map(|i| i.collect()).unwrap_or_default() };
+                let raw = |id: &str| -> Vec<String> { m.get_raw(id).map(|v| v.map(|s| s.to_string_lossy().into_owned()).collect()).unwrap_or_default() };
+                let got = (idx("o"), idx("f"), idx("pos"), idx("n"), raw("o"), raw("pos"), raw("n"));
+                let want = (vec![2, 3, 7], vec![4], vec![5, 10], vec![9], vec!["a".to_string(), "b".into(), "c".into()], vec!["x".to_string(), "y".into()], vec!["7".to_string()]);
+                if got != want || m.get_many::<u8>("n").map(|v| v.copied().collect::<Vec<_>>()) != Some(vec![7]) {
+                    println!("SPEC-REPLAY MISMATCH target={target} case=p --o a b -f x --o=c --n 7 y: (indices o, f, pos, n; raw o, pos, n) = {got:?}, expected {want:?}");
+                }
+            }
+            Err(e) => println!("SPEC-REPLAY MISMATCH target={target} case=valid line rejected: {:?}", e.kind()),
+        }
+        // a flag with an implied value takes ONE index; a Set option takes one for the flag and one per value; positionals one per value
+        let cmd2 = Command::new("p")
+            .arg(Arg::new("t").short('t').action(ArgAction::SetTrue))
+            .arg(Arg::new("u").short('u').action(ArgAction::SetFalse))
+            .arg(Arg::new("c").short('c').action(ArgAction::Count))
+            .arg(Arg::new("s").short('s').long("set").action(ArgAction::Set))
+            .arg(Arg::new("pos").index(1));
+        match cmd2.try_get_matches_from(["p", "-t", "-s", "v", "-u", "x", "-c", "--set=w"]) {
+            Ok(m) => {
+                let idx = |id: &str| -> Vec<usize> { m.indices_of(id).map(|i| i.collect()).unwrap_or_default() };
+                let got = (idx("t"), idx("s"), idx("u"), idx("pos"), idx("c"));
+                let want = (vec![1], vec![9], vec![4], vec![5], vec![6]);
+                if got != want {
+                    println!("SPEC-REPLAY MISMATCH target={target} case=p -t -s v -u x -c --set=w (args_override_self off, so this must be a conflict) accepted with {got:?}");
+                }
+            }
+            Err(e) if e.kind() == ErrorKind::ArgumentConflict => {}
+            Err(e) => println!("SPEC-REPLAY MISMATCH target={target} case=p -t -s v -u x -c --set=w: {:?}", e.kind()),
+        }
+        let cmd3 = Command::new("p")
+            .arg(Arg::new("t").short('t').action(ArgAction::SetTrue))
+            .arg(Arg::new("u").short('u').action(ArgAction::SetFalse))
+            .arg(Arg::new("c").short('c').action(ArgAction::Count))
+            .arg(Arg::new("s").short('s').long("set").action(ArgAction::Set))
+            .arg(Arg::new("pos").index(1));
+        match cmd3.try_get_matches_from(["p", "-t", "-s", "v", "-u", "x", "-c"]) {
+            Ok(m) => {
+                let idx = |id: &str| -> Vec<usize> { m.indices_of(id).map(|i| i.collect()).unwrap_or_default() };
+                let got = (idx("t"), idx("s"), idx("u"), idx("pos"), idx("c"));
+                let want = (vec![1], vec![3], vec![4], vec![5], vec![6]);
+                if got != want {
+                    println!("SPEC-REPLAY MISMATCH target={target} case=p -t -s v -u x -c: indices (t, s, u, pos, c) = {got:?}, expected {want:?}");
+                }
+            }
+            Err(e) => println!("SPEC-REPLAY MISMATCH target={target} case=p -t -s v -u x -c: rejected {:?}", e.kind()),
+        }
+        // a value that fails to parse is an error, nothing of it is reported
+        match cmd.try_get_matches_from(["p", "--n", "7", "--n", "x7"]) {
+            Err(e) if e.kind() == ErrorKind::ValueValidation => {}
+            other => println!("SPEC-REPLAY MISMATCH target={target} case=--n x7 with a u8 parser: {:?}", other.map(|_| ()).map_err(|e| e.kind())),
+        }
     } else if target == "match_arg_error" {
         // C10: the error kind names a rule the input really breaks
         for acws in [false, true] {
